@@ -22,6 +22,9 @@ REQUIRED_THEOREMS = [
     "TapkeeVerif.Tsne.sqDistance_not_metric",
     "TapkeeVerif.Tsne.bh_neighbours_true",
     "TapkeeVerif.Tsne.bh_neighbours_witness",
+    "TapkeeVerif.Tsne.symmetrizeCsr_inbounds",
+    "TapkeeVerif.Tsne.symmetrizeCsr_half_sum",
+    "TapkeeVerif.Tsne.symmetrizeCsr_symm",
     "TapkeeVerif.Tsne.symmetrizeCsr_small_partial",
     "TapkeeVerif.Tsne.gradient_identity",
     "TapkeeVerif.Tsne.zeroMean_centres",
